@@ -1353,6 +1353,29 @@ Print Assumptions loopir_HERMTOEP_model.
 Print Assumptions loopir_HERMTOEP_tie.
 """
 
+# ---------------------------------------------------------------- the psi loop of minvar: translation + theorem
+MVPSI_PROOF = 'Proofs/LoopIRMinvarPsi.v'
+MVPSI_THEOREMS = ['loopir_minvar_psi_model', 'loopir_minvar_psi_tie']
+MVPSI_BLOCK = """
+(* The program regenerated on this run is, term for term, the one Proofs/LoopIRMinvarPsi.v is about: its theorems apply. *)
+Require Import Spectrum.Theory.Ops Spectrum.Theory.Vec Spectrum.Model.Minvar Spectrum.Model.LoopIRTie Spectrum.Proofs.LoopIRMinvarPsi.
+Lemma prog_minvar_psi_is_ref : prog_minvar_psi = prog_minvar_psi_ref.
+Proof. reflexivity. Qed.
+Theorem loopir_minvar_psi_model :
+  forall (F : Type) (OF : Ops F) (L : Laws OF) (feq : F -> F -> bool) (stop : Z -> F -> F -> bool)
+         (m nfft : nat) (ta : bool) (a : list F) (P : F),
+  (m <= length a + 1)%nat ->
+  run feq stop prog_minvar_psi [Some (VI (Z.of_nat m)); Some (VI (Z.of_nat nfft)); Some (VArr ta a); Some (VF P)] =
+  if (nfft <? m)%nat then OErr IndexError else ORet [VArr false (psi_loop m nfft (1%F :: a) P)].
+Proof. intros. rewrite prog_minvar_psi_is_ref. apply minvar_psi_ir_run; assumption. Qed.
+Theorem loopir_minvar_psi_tie :
+  forall (F : Type) (OF : Ops F) (L : Laws OF) (feq : F -> F -> bool), (forall a, feq a a = true) ->
+  forall (m nfft : nat) (a : list F) (P : F), (m <= length a + 1)%nat -> tie_minvar_psi feq prog_minvar_psi m nfft a P = true.
+Proof. intros. rewrite prog_minvar_psi_is_ref. apply minvar_psi_ir_tie; assumption. Qed.
+Print Assumptions loopir_minvar_psi_model.
+Print Assumptions loopir_minvar_psi_tie.
+"""
+
 # routine -> the proof file its reference program text lives in, the theorems the generated file instantiates, the block that does it
 THEOREMS = {
     'LEVINSON': dict(proof=LEV_PROOF, theorems=LEV_THEOREMS, block=LEV_BLOCK),
@@ -1360,6 +1383,7 @@ THEOREMS = {
     'levup': dict(proof=LEVUP_PROOF, theorems=LEVUP_THEOREMS, block=LEVUP_BLOCK),
     'levdown': dict(proof=LEVDOWN_PROOF, theorems=LEVDOWN_THEOREMS, block=LEVDOWN_BLOCK),
     'HERMTOEP': dict(proof=HERM_PROOF, theorems=HERM_THEOREMS, block=HERM_BLOCK),
+    'minvar_psi': dict(proof=MVPSI_PROOF, theorems=MVPSI_THEOREMS, block=MVPSI_BLOCK),
 }
 
 
